@@ -90,12 +90,19 @@ def _tail():
     return {"full": TAIL + INC, "noinc": TAIL, "inc": "|" + INC, "small": ""}[P.get("src", "full")]
 
 
+# successive versions of a source differ as little as a source can: one character, chosen among characters that a
+# line-based or whitespace-based normalisation of the checksum input would conflate (form feed / line feed / U+2028;
+# space / tab / U+0085); each version renders differently, so serving another version's code is visible
+SUBTLE_A = ["\x0c", "\n", "\u2028"]
+SUBTLE_B = [" ", "\t", "\x85"]
+
+
 def src_a(v):
-    return "A%d {{ x }} [{{ self }}]" % v + _tail()
+    return "A" + SUBTLE_A[v] + "0 {{ x }} [{{ self }}]" + _tail()
 
 
 def src_b(v):
-    return "B%d {{ x + %d }} {{ uf() }}" % (v, v) + _tail()
+    return "B" + SUBTLE_B[v] + "0 {{ x + 1 }} {{ uf() }}" + _tail()
 
 
 class RelMixin:
